@@ -12,6 +12,19 @@ SiChecks(r) ==
   ELSE << <<"value", \A i \in 1..Len(r.est) :
                LET nd == SiSdrRatio(r.est[i], r.ref[i]) IN RatioOK(r.out[i], nd[1], nd[2], FOne, FOne, SL)>> >>
 
+\* near-perfect estimates: est = G ref + e with a large integer gain G and a small integer residual e.  Then
+\* alpha = G + <s,e>/<s,s>, the residual est - alpha s = e - (<s,e>/<s,s>) s does not depend on G, and
+\*    |alpha s|^2 / |est - alpha s|^2 = (G <s,s> + <s,e>)^2 / (<e,e><s,s> - <s,e>^2)
+SiHiChecks(r) ==
+  IF r.exc # "" THEN << <<"raises", FALSE>> >>
+  ELSE IF Len(r.out) # Len(r.ref) THEN << <<"shape", FALSE>> >>
+  ELSE << <<"value", \A i \in 1..Len(r.ref) :
+               LET ss == Energy(r.ref[i]) se == Inner(r.ref[i], r.res[i]) ee == Energy(r.res[i])
+                   num == FSq(FAdd(FMul(FInt(r.gain[i]), FInt(ss)), FInt(se)))
+                   den == ee * ss - se * se
+               IN  IF den = 0 THEN r.out[i] = PInfF
+                   ELSE IsFlt(r.out[i]) /\ CloseRel(FMul(r.out[i], FInt(den)), num, SL)>> >>
+
 (* ---- input_sxr ---- *)
 \* r.out.sdr / sir / snr : matrices [k][d] of Flt ratios (k = 1 when averaged over sources,
 \* d = 1 when averaged over channels);  gains: gi = ci^2, gn = cn^2 (Flt)
@@ -81,10 +94,10 @@ ContainerChecks(r) ==
                     IN  {r.keys[i] : i \in 1..Len(r.keys)} = {p \o "sdr", p \o "sir", p \o "snr"}>> >>
 
 Checks(r) == CASE r.kind = "sisdr" -> SiChecks(r) [] r.kind = "input" -> InChecks(r)
-               [] r.kind = "output" -> OutChecks(r) [] r.kind = "snr" -> SnrChecks(r)
+               [] r.kind = "sisdr_hi" -> SiHiChecks(r) [] r.kind = "output" -> OutChecks(r) [] r.kind = "snr" -> SnrChecks(r)
                [] r.kind = "container" -> ContainerChecks(r)
 \* non-trivial: K >= 2, noise non-zero, (output) selection not the identity
-NT(r) == CASE r.kind = "sisdr" -> r.exc = ""
+NT(r) == CASE r.kind \in {"sisdr", "sisdr_hi"} -> r.exc = ""
            [] r.kind = "input" -> r.exc = "" /\ Len(r.images) >= 2 /\ \E d \in 1..Len(r.noise) : NPow(r.noise, d) > 0
            [] r.kind = "output" -> r.exc = "" /\ Len(r.images) >= 2 /\ ~SelTie(r.images)
                                    /\ BestSel(r.images) # [k \in 1..Len(r.images) |-> k]
